@@ -27,10 +27,22 @@ fn arg(args: &[String], name: &str) -> Option<String> {
         .and_then(|i| args.get(i + 1).cloned())
 }
 
+/// time unit of the scenario being run, in micro-seconds: scenarios of the large-time family are
+/// written in coarser units (minutes) so that real times lie beyond 2^32 us while the numbers
+/// given to TLC stay small; SimObs only compares and adds times, it is invariant under the scaling
+static UNIT: std::sync::atomic::AtomicI64 = std::sync::atomic::AtomicI64::new(1);
+fn unit() -> i64 {
+    UNIT.load(std::sync::atomic::Ordering::Relaxed)
+}
+
 struct Clock {
     base: Instant,
     offset_us: i64,
     subus: std::cell::Cell<bool>,
+    /// large-time family only: a time that is not a whole number of units was met while rendering
+    /// the current record (every input is on the grid and the simulator only adds, subtracts and
+    /// compares times, so a correct run stays on it); the value is floored and the record marked
+    og: std::cell::Cell<bool>,
 }
 impl Clock {
     fn us(&self, t: Instant) -> i64 {
@@ -38,8 +50,12 @@ impl Clock {
         if d.subsec_nanos() % 1000 != 0 {
             self.subus.set(true);
         }
-        let us = d.as_micros() as i64 + self.offset_us;
-        // TLC integers are 32 bit: runs that reach beyond 10^9 us are skipped as well
+        let raw = d.as_micros() as i64;
+        if raw % unit() != 0 {
+            self.og.set(true);
+        }
+        let us = raw / unit() + self.offset_us;
+        // TLC integers are 32 bit: runs that reach beyond 10^9 units are skipped as well
         if us.abs() > 1_000_000_000 {
             self.subus.set(true);
         }
@@ -47,10 +63,13 @@ impl Clock {
     }
 }
 fn dur_us(d: Duration, c: &Clock) -> i64 {
-    if d.subsec_nanos() % 1000 != 0 || d.as_micros() > 1_000_000_000 {
+    if d.subsec_nanos() % 1000 != 0 || d.as_micros() as i64 / unit() > 1_000_000_000 {
         c.subus.set(true);
     }
-    d.as_micros() as i64
+    if d.as_micros() as i64 % unit() != 0 {
+        c.og.set(true);
+    }
+    d.as_micros() as i64 / unit()
 }
 
 fn ev_fields(e: &TriggerEvent) -> (&'static str, i64) {
@@ -91,6 +110,15 @@ fn act_json(a: &TriggerAction, c: &Clock) -> Value {
 }
 
 fn rec_json(r: &Rec, c: &Clock) -> Value {
+    c.og.set(false);
+    let mut v = rec_json0(r, c);
+    if c.og.replace(false) {
+        v["og"] = json!(true);
+    }
+    v
+}
+
+fn rec_json0(r: &Rec, c: &Clock) -> Value {
     match r {
         Rec::Event { event, bypass, replace } => {
             let (name, m) = ev_fields(&event.event);
@@ -207,7 +235,30 @@ fn blocking_mix(r: &mut GRng) -> Vec<MMachine> {
     v
 }
 
+/// the machine with its times (timeouts, durations, blocking budget) multiplied by the unit
+fn scale_mm(m: &MMachine, u: i64) -> MMachine {
+    let mut m = m.clone();
+    if u == 1 {
+        return m;
+    }
+    if m.allowedBlock > 0 {
+        m.allowedBlock *= u;
+    }
+    for s in m.states.iter_mut() {
+        for d in [&mut s.action.timeout, &mut s.action.duration] {
+            for v in d.vals.iter_mut() {
+                if *v != HUGE {
+                    *v *= u;
+                }
+            }
+        }
+    }
+    m
+}
+
+#[derive(Clone)]
 struct Scenario {
+    unit: i64,
     trace: Vec<(i64, bool)>, // (time us, client sent?)
     delay_us: u64,
     pps: Option<usize>,
@@ -222,7 +273,7 @@ struct Scenario {
 
 fn trace_string(t: &[(i64, bool)]) -> String {
     t.iter()
-        .map(|(us, s)| format!("{},{}", us * 1000, if *s { "s" } else { "r" }))
+        .map(|(us, s)| format!("{},{}", us * unit() * 1000, if *s { "s" } else { "r" }))
         .collect::<Vec<_>>()
         .join("\n")
 }
@@ -236,7 +287,7 @@ fn run(
     mtl: usize,
     hooks: bool,
 ) -> Result<(Vec<Value>, Vec<Value>, bool), String> {
-    let network = Network::new(Duration::from_micros(sc.delay_us), sc.pps);
+    let network = Network::new(Duration::from_micros(sc.delay_us * unit() as u64), sc.pps);
     let mut sq = parse_trace(&trace_string(&sc.trace), network);
     let base = sq.get_first_time().ok_or("empty queue")?;
     let offset = sc
@@ -249,6 +300,7 @@ fn run(
         base,
         offset_us: offset,
         subus: std::cell::Cell::new(false),
+        og: std::cell::Cell::new(false),
     };
     let mut args = SimulatorArgs::new(network, mtl, ona);
     args.only_client_events = oc;
@@ -279,6 +331,24 @@ fn run(
             std::process::exit(2);
         }
     };
+    if unit() > 1 {
+        // the bottleneck's extra delay (a fraction of its one-second window) is legitimately off
+        // the grid of minutes: such runs are left to their copies in micro-seconds
+        let mut last: Option<Instant> = None;
+        for r in &recs {
+            match r {
+                Rec::Event { event, .. } => last = Some(event.time),
+                Rec::RecvScheduled { time, .. } => {
+                    if let Some(l) = last {
+                        if time.duration_since(l) != network.delay {
+                            clock.subus.set(true);
+                        }
+                    }
+                }
+                _ => {}
+            }
+        }
+    }
     let lines: Vec<Value> = recs.iter().map(|r| rec_json(r, &clock)).collect();
     // accumulated aggregate delays shift base times that may never be logged: keep them in range too
     let agg_total: i64 = lines.iter().filter(|l| l["k"] == "aggpop").map(|l| l["d"].as_i64().unwrap_or(0)).sum();
@@ -368,6 +438,7 @@ fn random_scenario(g: &mut GRng, id: u64, seed: u64, max_packets: usize, no_mach
         let ms = gen_side(g);
         let trace_len = trace.len();
         let sc = Scenario {
+            unit: 1,
             trace,
             delay_us,
             pps,
@@ -425,6 +496,7 @@ fn directed(seed: u64) -> Vec<Scenario> {
     let mut push = |machines: Vec<MMachine>, tr: &[i64], client: bool, cont: bool, delay: u64| {
         let id = v.len() as u64;
         v.push(Scenario {
+            unit: 1,
             trace: tr.iter().map(|t| (*t + if client { 0 } else { delay as i64 }, client)).collect(),
             delay_us: delay,
             pps: None,
@@ -564,6 +636,7 @@ fn directed(seed: u64) -> Vec<Scenario> {
                             ];
                             let id = v.len() as u64;
                             v.push(Scenario {
+                                unit: 1,
                                 trace: vec![(0, true), (10, false), (30, !mirror), (40, mirror)],
                                 delay_us: 10,
                                 pps: None,
@@ -627,7 +700,7 @@ fn burst_lines(id: u64, n: usize, delay_us: u64, tail: bool) -> Vec<Value> {
     for (api, ona, oc) in [("advanced", false, false), ("advanced", true, true), ("simple", false, false), ("simple", true, false)] {
         let network = Network::new(Duration::from_micros(delay_us), None);
         let mut sq = parse_trace(&trace_string(&trace), network);
-        let clock = Clock { base: sq.get_first_time().unwrap(), offset_us: start, subus: std::cell::Cell::new(false) };
+        let clock = Clock { base: sq.get_first_time().unwrap(), offset_us: start, subus: std::cell::Cell::new(false), og: std::cell::Cell::new(false) };
         let r = verif_harness::watchdog::run(move || {
             let r = catch_unwind(AssertUnwindSafe(|| {
                 if api == "simple" {
@@ -680,6 +753,23 @@ fn main() {
             }
         }
     }
+    // the large-time family: copies of every 6th scenario written in minutes, so that the real run
+    // lies beyond 2^32 us (71.6 min) while every time stays a whole number of units
+    let mut n_scaled = 0u64;
+    if !args.iter().any(|a| a == "--no-scaled") {
+        let copies: Vec<(Scenario, bool)> = list
+            .iter()
+            .enumerate()
+            .filter(|(i, (sc, _))| i % 6 == 3 && sc.pps.is_none())
+            .map(|(_, (sc, light))| {
+                let mut c = sc.clone();
+                c.unit = 60_000_000;
+                (c, *light)
+            })
+            .collect();
+        n_scaled = copies.len() as u64;
+        list.extend(copies);
+    }
     let mut n_hang = 0u64;
     let mut n_fw = 0u64;
     let mut n_mech = 0u64;
@@ -693,15 +783,16 @@ fn main() {
             break; // each hang leaves a spinning thread behind
         }
         let light = light;
-        let rmc: Vec<Machine> = sc.mc.iter().map(|m| m.to_machine_unchecked()).collect();
-        let rms: Vec<Machine> = sc.ms.iter().map(|m| m.to_machine_unchecked()).collect();
+        UNIT.store(sc.unit, std::sync::atomic::Ordering::Relaxed);
+        let rmc: Vec<Machine> = sc.mc.iter().map(|m| scale_mm(m, sc.unit).to_machine_unchecked()).collect();
+        let rms: Vec<Machine> = sc.ms.iter().map(|m| scale_mm(m, sc.unit).to_machine_unchecked()).collect();
         let mut lines = vec![
             json!({"k": "reset", "id": id}),
             json!({"k": "sim", "delay": sc.delay_us, "pps": sc.pps.map(|p| p as i64).unwrap_or(-1),
                    "trace": sc.trace.iter().map(|(t, s)| json!({"t": t, "s": s})).collect::<Vec<_>>(),
                    "nc": sc.mc.len(), "ns": sc.ms.len(),
                    "mc": serde_json::to_value(&sc.mc).unwrap(), "ms": serde_json::to_value(&sc.ms).unwrap(),
-                   "cont": sc.cont, "max_it": sc.max_it, "seed": sc.seed,
+                   "cont": sc.cont, "max_it": sc.max_it, "seed": sc.seed, "unit": sc.unit,
                    "start": sc.trace.iter().map(|(t, s)| if *s { *t } else { *t - sc.delay_us as i64 }).min().unwrap()}),
         ];
         let mut subus = false;
@@ -714,7 +805,7 @@ fn main() {
                 subus |= sub;
                 n_ev += hook.iter().filter(|l| l["k"] == "ev").count() as u64;
                 n_act += hook.iter().filter(|l| l["k"] == "act").count() as u64;
-                if let Some(fwf) = fw_out.as_mut().filter(|_| !sub) {
+                if let Some(fwf) = fw_out.as_mut().filter(|_| !sub && sc.unit == 1) {
                     // per side: the embedded framework's calls as a FrameworkTrace scenario
                     for client in [true, false] {
                         let ms = if client { &sc.mc } else { &sc.ms };
@@ -762,7 +853,7 @@ fn main() {
                         }
                     }
                 }
-                if let Some(mf) = mech_out.as_mut().filter(|_| !sub) {
+                if let Some(mf) = mech_out.as_mut().filter(|_| !sub && sc.unit == 1) {
                     // mechanism view: the records SimMech emits (fired ev act exit agg aggpop recv)
                     {
                         writeln!(mf, "{}", lines[0]).unwrap();
@@ -809,13 +900,14 @@ fn main() {
                 // machine-less: the simple entry point too
                 if !light && sc.mc.is_empty() && sc.ms.is_empty() && sc.pps.is_none() {
                     for ona in [false, true] {
-                        let network = Network::new(Duration::from_micros(sc.delay_us), None);
+                        let network = Network::new(Duration::from_micros(sc.delay_us * unit() as u64), None);
                         let mut sq = parse_trace(&trace_string(&sc.trace), network);
                         let base = sq.get_first_time().unwrap();
                         let clock = Clock {
                             base,
                             offset_us: sc.trace.iter().map(|(t, s)| if *s { *t } else { *t - sc.delay_us as i64 }).min().unwrap(),
                             subus: std::cell::Cell::new(false),
+        og: std::cell::Cell::new(false),
                         };
                         let r = catch_unwind(AssertUnwindSafe(|| sim(&[], &[], &mut sq, network.delay, 0, ona)));
                         match r {
@@ -840,6 +932,7 @@ fn main() {
         }
         n_written += 1;
     }
+    UNIT.store(1, std::sync::atomic::Ordering::Relaxed);
     // --burst N: machine-less bursts of N (and a few more sizes) packets at one instant
     let mut n_burst = 0u64;
     if let Some(nb) = arg(&args, "--burst").and_then(|s| s.parse::<usize>().ok()) {
@@ -863,7 +956,7 @@ fn main() {
     println!(
         "{}",
         json!({"scenarios": scenarios, "written": n_written, "events": n_ev, "actions": n_act,
-               "panics": n_panic, "sub_microsecond_skipped": n_subus, "directed": n_directed, "hangs": n_hang, "framework_traces": n_fw, "mechanism_traces": n_mech, "bursts": n_burst})
+               "panics": n_panic, "sub_microsecond_skipped": n_subus, "directed": n_directed, "hangs": n_hang, "framework_traces": n_fw, "mechanism_traces": n_mech, "bursts": n_burst, "large_time_copies": n_scaled})
     );
     // threads stuck in a simulation are abandoned
     std::process::exit(0);
